@@ -14,7 +14,10 @@ A *script* is a list of ops (all times in ticks of 62.5 ms):
     ["resp_ready", p]          the snapshot of #p completes
     ["bad_http", p]            bytes that make h11 raise a protocol error
     ["bad_frame", p]           (encrypted connections only) a frame whose tag does not verify
-    ["app_set", x, v]          char.set_value(v) by the application
+    ["app_set", x, v]          char.set_value(v) by the application (on the loop thread)
+    ["app_set_thread", x, v]   char.set_value(v) in a real worker thread (driver.tid is the loop thread,
+                               so AccessoryDriver.publish defers through loop.call_soon_threadsafe);
+                               the hand-off runs at the next "ready" / "advance"
     ["lose", p]                connection_lost(None) delivered to #p
     ["stop"]                   AccessoryDriver.async_stop()
 
@@ -346,6 +349,23 @@ class World:
             lp.drain()
         elif k == "app_set":
             self.chars[op[1]].set_value(op[2])
+        elif k == "app_set_thread":
+            import threading
+
+            assert self.driver.tid is threading.current_thread(), "the harness must run on driver.tid"
+            err = []
+
+            def work():
+                try:
+                    self.chars[op[1]].set_value(op[2])
+                except BaseException as ex:  # noqa: BLE001
+                    err.append(ex)
+
+            t = threading.Thread(target=work, name="verif-worker")
+            t.start()
+            t.join()
+            if err:
+                raise err[0]
         elif k == "lose":
             p = op[1]
             if p < len(self.protos) and p not in self.lost:
